@@ -28,11 +28,12 @@ type cexFile struct {
 	Observes []string   `json:"observed,omitempty"`
 	PkgDir   string     `json:"pkgdir"`
 	Params   map[string]int64 `json:"params"`
+	Sched    []schedEv        `json:"schedule,omitempty"`
 }
 
-func writeCounterexample(dir string, v *Violation, r *entryResult, lc LoadConfig, rtNative string, nativeExtra []string) {
+func writeCounterexample(dir string, v *Violation, r *entryResult, lc LoadConfig, rtNative string, nativeExtra []string, l *Loaded) {
 	cf := cexFile{Property: v.Property, Entry: v.Entry, Label: v.Label, Kind: v.Kind, Msg: v.Msg,
-		Inputs: v.Inputs, Trail: v.Trail, Observes: v.Observes, PkgDir: lc.PkgDir, Params: r.Opts.Params}
+		Inputs: v.Inputs, Trail: v.Trail, Observes: v.Observes, PkgDir: lc.PkgDir, Params: r.Opts.Params, Sched: v.Sched}
 	b, _ := json.MarshalIndent(cf, "", " ")
 	os.WriteFile(filepath.Join(dir, "counterexample.json"), b, 0o644)
 
@@ -51,10 +52,29 @@ func writeCounterexample(dir string, v *Violation, r *entryResult, lc LoadConfig
 			rename[id] += string(rune(b))
 		}
 	}
+	// concurrent counterexample: build the replay from instrumented copies
+	var instr map[string][]byte
+	if v.Multi && l != nil {
+		m, err := instrumentPackage(l)
+		if err == nil {
+			instr = m
+		} else {
+			os.WriteFile(filepath.Join(dir, "instrument-error.txt"), []byte(err.Error()), 0o644)
+		}
+	}
+	harnessOverlayName := func(src string) string {
+		base := strings.TrimSuffix(filepath.Base(src), ".go")
+		return filepath.Join(lc.PkgDir, "zz_verif_h_"+base+".go")
+	}
 	put := func(src, dstBase string) {
 		data, err := os.ReadFile(src)
 		if err != nil {
 			return
+		}
+		if instr != nil {
+			if d, ok := instr[harnessOverlayName(src)]; ok {
+				data = d
+			}
 		}
 		for id, nn := range rename {
 			data = regexp.MustCompile(`\b`+regexp.QuoteMeta(id)+`\b`).ReplaceAll(data, []byte(nn))
@@ -72,6 +92,18 @@ func writeCounterexample(dir string, v *Violation, r *entryResult, lc LoadConfig
 	for i, x := range nativeExtra {
 		put(x, fmt.Sprintf("zz_verif_nx%d_test.go", i))
 	}
+	if instr != nil {
+		n := 0
+		for orig, data := range instr {
+			if strings.HasPrefix(filepath.Base(orig), "zz_verif_") {
+				continue
+			}
+			n++
+			local := filepath.Join(dir, fmt.Sprintf("instr_%d_%s", n, filepath.Base(orig)))
+			os.WriteFile(local, data, 0o644)
+			overlay[orig] = local
+		}
+	}
 	// the generated test
 	var vec []string
 	for _, in := range v.Inputs {
@@ -84,7 +116,11 @@ func writeCounterexample(dir string, v *Violation, r *entryResult, lc LoadConfig
 	var tb bytes.Buffer
 	fmt.Fprintf(&tb, "package %s\n\nimport \"testing\"\n\n", pkgName)
 	fmt.Fprintf(&tb, "func TestVerifReplay(t *testing.T) {\n")
-	fmt.Fprintf(&tb, "\tvrtRun(t, %q, %q, %s)\n", string(vecJSON), string(paramsJSON), v.Entry)
+	schedJSON := []byte("")
+	if instr != nil && len(v.Sched) > 0 {
+		schedJSON, _ = json.Marshal(v.Sched)
+	}
+	fmt.Fprintf(&tb, "\tvrtRun(t, %q, %q, %q, %s)\n", string(vecJSON), string(paramsJSON), string(schedJSON), v.Entry)
 	fmt.Fprintf(&tb, "}\n")
 	local := filepath.Join(dir, "zz_verif_replay_test.go")
 	os.WriteFile(local, tb.Bytes(), 0o644)
